@@ -230,8 +230,18 @@ impl FileHasher<'_> {
         transform: Option<Transform>,
         log: &dyn Log,
     ) -> Result<FileHasher<'_>, Error> {
-        let transform_command_str = transform.as_ref().map(|t| t.command_str.as_str());
-        let cache = HashCache::open_default(transform_command_str, algorithm)?;
+        // The way the program reads its input and delivers its output is a part of the transform:
+        let transform_id = transform.as_ref().map(|t| {
+            let mut id = t.command_str.clone();
+            if t.in_place {
+                id.push_str(" --in-place");
+            }
+            if !t.copy {
+                id.push_str(" --no-copy");
+            }
+            id
+        });
+        let cache = HashCache::open_default(transform_id.as_deref(), algorithm)?;
         Ok(FileHasher {
             algorithm,
             buf_len: 65536,
